@@ -26,7 +26,7 @@ ASSUMPTIONS = ['header names are case-insensitively unique per request, as the p
                'packing several requests per segment belongs to C04']
 TIERS = {
     'quick': {'runs': 9000, 'budget_s': 40, 'max_body': 300},
-    'thorough': {'runs': 900000, 'budget_s': 900, 'max_body': 20000},
+    'thorough': {'runs': 900000, 'budget_s': 900, 'watchdog_s': 600, 'max_body': 20000},
 }
 RESP = b'HTTP/1.1 200 OK\r\nContent-Length: 2\r\n\r\nok'
 RESP_HEAD = b'HTTP/1.1 200 OK\r\nContent-Length: 2\r\n\r\n'
